@@ -372,6 +372,7 @@ class C03(Check):
             regs |= S.token_regions(cssutils, t, self.tk, encoding, ident_form)
         for t in edit_texts:
             regs |= S.token_regions(cssutils, t, self.tk, encoding, ident_form, base_depth=1)
+        regs.discard('!unexplained-unsafe-string')
         for how, raw in raws:
             cls = C.uri_class(raw) if how == 'uri' else (C.uri_class(raw) or C.str_class(raw))
             if cls:
